@@ -608,3 +608,204 @@ def _vibration(hp, mode):
     hp.SimpleVibration.__init__(v, mode, 0.25, 0.5, 0.75)
     v.t = 0.375
     return v
+
+
+# ------------------------------------------------------------------------------------------------
+# constructor options: every documented option of every element class at a non-default value
+
+class _FieldOperatorElement(object):
+    """A field-level helper object of the library (`FourierFilter`, the thing behind the Fresnel / angular-spectrum
+    propagators and the multi-scale coronagraphs) used directly through its public `forward` / `backward`, presented with
+    the interface of an optical element so that the same clauses run on it."""
+    def __init__(self, op):
+        self.op = op
+
+    def _apply(self, f, wavefront):
+        import hcipy as hp
+        return hp.Wavefront(f(wavefront.electric_field), wavefront.wavelength, wavefront.input_stokes_vector)
+
+    def forward(self, wavefront):
+        return self._apply(self.op.forward, wavefront)
+
+    def backward(self, wavefront):
+        return self._apply(self.op.backward, wavefront)
+
+
+def option_elements(rng):
+    """Entries that exercise the constructor options `elements` leaves at their defaults (and the rare values of the ones
+    it sets): one entry per (class, option) with that option at a non-default value, everything else as in `elements`.
+    `constructor_option_coverage` measures what the two lists together reach.  Parameters are dyadic, drawn from `rng`."""
+    import hcipy as hp
+
+    out = []
+
+    def add(name, cls, factory, grid, kinds, **kw):
+        out.append(Entry(name, cls, factory, grid, kinds, **kw))
+
+    n = int(rng.integers(3, 5)) * 2                       # 6, 8
+    pupil = hp.make_pupil_grid(n, 1.0)
+    npx = [int(rng.integers(6, 10)), int(rng.integers(6, 10))]
+    rect = hp.make_uniform_grid(npx, [npx[0] / 8.0, npx[1] / 8.0])
+    focal = hp.make_focal_grid(2, 3, spatial_resolution=0.5)
+    fsmall = hp.make_pupil_grid(8, 4.0)
+    dist = dyadic_scalar(rng, 0.25, 2.0, 3)
+    kg = int(rng.integers(1, 8))
+
+    def n_glass(k):
+        return lambda wl: 1.5 + k / 16.0 * (1.0 - wl)
+
+    phase = dyadic_array(rng, (rect.size,), -3.0, 3.0)
+    stop = hp.Field((dyadic_array(rng, (pupil.size,), 0.0, 1.0) > 0.25).astype(float), pupil)
+    fpm = hp.Field(dyadic_array(rng, (focal.size,), 0.0, 1.0) * np.exp(1j * dyadic_array(rng, (focal.size,), -3.0, 3.0)), focal)
+
+    # ---------------- propagators and the Fourier filter behind them --------------------------------------------
+    add('FresnelPropagator[zero_padding=1]', hp.FresnelPropagator, lambda: hp.FresnelPropagator(pupil, dist, zero_padding=1), pupil, ALL, family='filter')
+    add('FresnelPropagator[zero_padding=1,num_oversampling=1,rect]', hp.FresnelPropagator,
+        lambda: hp.FresnelPropagator(rect, 2 * dist, 1, 1, n_glass(kg)), rect, ALL, family='filter')
+    add('FresnelPropagator[zero_padding=3]', hp.FresnelPropagator, lambda: hp.FresnelPropagator(pupil, dist, 2, 3), pupil, ALL, family='filter')
+    add('AngularSpectrumPropagator[refractive_index,num_oversampling=3]', hp.AngularSpectrumPropagator,
+        lambda: hp.AngularSpectrumPropagator(pupil, dist, 3, n_glass(kg)), pupil, ALL, family='filter')
+
+    def tf_function(fourier_grid):
+        return hp.Field(np.exp(-0.125j * (fourier_grid.x**2 + fourier_grid.y**2)), fourier_grid)
+    add('FourierFilter[q=1,rect]', _FieldOperatorElement, lambda: _FieldOperatorElement(hp.FourierFilter(rect, tf_function)), rect, ALL,
+        family='filter', notes='hcipy.FourierFilter used directly (default q = 1: no zero padding)')
+    add('FourierFilter[q=1,function]', _FieldOperatorElement, lambda: _FieldOperatorElement(hp.FourierFilter(pupil, tf_function, 1)), pupil, ALL,
+        family='filter')
+    add('FourierFilter[q=2,function]', _FieldOperatorElement, lambda: _FieldOperatorElement(hp.FourierFilter(pupil, tf_function, 2)), pupil, ALL,
+        family='filter')
+    add('OpticalSystem[fresnel(zero_padding=1),phase,fresnel(zero_padding=1)]', hp.OpticalSystem,
+        lambda: hp.OpticalSystem([hp.FresnelPropagator(rect, dist, 2, 1), hp.PhaseApodizer(phase.copy()), hp.FresnelPropagator(rect, dist, 1, 1)]),
+        rect, ALL, family='system')
+
+    def sad_unpadded():
+        s = hp.SurfaceAberrationAtDistance(_with_input_grid(hp.SurfaceAberration(pupil, 0.25, 1.0), pupil), 0.5)
+        s.fresnel = hp.FresnelPropagator(pupil, 0.5, zero_padding=1)
+        return s
+    add('SurfaceAberrationAtDistance[fresnel(zero_padding=1)]', hp.SurfaceAberrationAtDistance, lambda: _seeded(7, sad_unpadded), pupil, ALL, family='sandwich')
+    add('SurfaceAberration[exponent,refractive_index,aperture,remove_modes]', hp.SurfaceAberration,
+        lambda: _seeded(7, lambda: hp.SurfaceAberration(pupil, 0.25, 1.0, -3.0, 1.5, hp.make_circular_aperture(1.0)(pupil),
+                                                        hp.make_zernike_basis(3, 1.0, pupil))), pupil, ALL, family='apodizer', passive=True)
+
+    # ---------------- coronagraphs ------------------------------------------------------------------------------
+    add('OccultedLyotCoronagraph[focal_length=2]', hp.OccultedLyotCoronagraph, lambda: hp.OccultedLyotCoronagraph(pupil, fpm.copy(), 2.0), pupil, ALL, family='sandwich')
+    add('LyotCoronagraph[focal_plane_mask_grid]', hp.LyotCoronagraph,
+        lambda: hp.LyotCoronagraph(pupil, np.asarray(fpm).copy(), stop.copy(), 1.5, focal), pupil, ALL, family='lyot')
+    add('OccultedLyotCoronagraph[focal_plane_mask_grid]', hp.OccultedLyotCoronagraph,
+        lambda: hp.OccultedLyotCoronagraph(pupil, np.asarray(fpm).copy(), 1.0, focal), pupil, ALL, family='sandwich')
+    add('VortexCoronagraph[lyot_stop,charge=4]', hp.VortexCoronagraph, lambda: hp.VortexCoronagraph(pupil, 4, stop.copy(), 4, 2, 4), pupil, ALL, family='multiscale')
+    add('FQPMCoronagraph[no-stop]', hp.FQPMCoronagraph, lambda: hp.FQPMCoronagraph(pupil, None, 4, 2, 4), pupil, ALL, family='multiscale')
+    ap = hp.make_circular_aperture(1.0)(pupil)
+    # ---------------- wavefront-sensor optics -------------------------------------------------------------------
+    wfs_out = hp.make_pupil_grid(2 * n, 2.0)
+    add('PyramidWavefrontSensorOptics[wavelength_0,refractive_index,defaults]', hp.PyramidWavefrontSensorOptics,
+        lambda: hp.PyramidWavefrontSensorOptics(pupil, wfs_out, None, None, 0.75, None, None, n_glass(kg)), pupil, ALL, output_grid=wfs_out, family='system')
+    add('ZernikeWavefrontSensorOptics[phase_step,dot,pupil_diameter,reference_wavelength]', hp.ZernikeWavefrontSensorOptics,
+        lambda: hp.ZernikeWavefrontSensorOptics(pupil, 1.0, 1.5, 6, 0.75, 0.75), pupil, ALL, family='lyot')
+    add('VectorZernikeWavefrontSensorOptics[phase_step,dot,pupil_diameter,reference_wavelength]', hp.VectorZernikeWavefrontSensorOptics,
+        lambda: hp.VectorZernikeWavefrontSensorOptics(pupil, 2.0, 1.0, 1.5, 6, 0.75, 0.75), pupil, ALL, family='lyot-jones')
+    add('OpticalDifferentiationWavefrontSensorOptics[wavelength_0,refractive_index]', hp.OpticalDifferentiationWavefrontSensorOptics,
+        lambda: hp.OpticalDifferentiationWavefrontSensorOptics(hp.make_odwfs_amplitude_filter(0.5), pupil, wfs_out, 1.0, 1.0, 0.75, None, 2, n_glass(kg)),
+        pupil, ALL, output_grid=None, family='system')
+    add('ModulatedPyramidWavefrontSensorOptics[num_steps=default]', hp.ModulatedPyramidWavefrontSensorOptics,
+        lambda: hp.ModulatedPyramidWavefrontSensorOptics(hp.PyramidWavefrontSensorOptics(pupil, wfs_out, 1.0, 1.0, 1.0, 2, 2), 0.5),
+        pupil, ALL, output_grid=None, multi=True, family='modulated')
+
+    # ---------------- polarisation, fibres, lenslets, atmosphere --------------------------------------------------
+    fa = dyadic_scalar(rng, -1.5, 1.5, 3)
+    add('LinearPolarizingBeamSplitter[wavelength]', hp.LinearPolarizingBeamSplitter, lambda: hp.LinearPolarizingBeamSplitter(fa, 0.75), rect, ALL,
+        output_grid=None, multi=True, family='jones-split', passive=True)
+    add('CircularPolarizingBeamSplitter[wavelength]', hp.CircularPolarizingBeamSplitter, lambda: hp.CircularPolarizingBeamSplitter(0.75), rect, ALL,
+        output_grid=None, multi=True, family='jones-split', passive=True)
+    add('StepIndexFiber[position]', hp.StepIndexFiber, lambda: hp.StepIndexFiber(1.0, 0.5, 2.0, np.array([0.5, -0.25])), fsmall, (S, V), family='fibre-modes', passive=True)
+    mla_grid = hp.make_pupil_grid(2, 1.0)
+    add('SphericalMicroLensArray[refractive_index]', hp.SphericalMicroLensArray,
+        lambda: hp.SphericalMicroLensArray(pupil, mla_grid, 2.0, hp.make_rectangular_aperture(0.5), n_glass(kg)), pupil, ALL, family='apodizer', passive=True)
+    add('EvenAsphereMicroLensArray[refractive_index]', hp.EvenAsphereMicroLensArray,
+        lambda: hp.EvenAsphereMicroLensArray(pupil, mla_grid, 2.0, hp.make_rectangular_aperture(0.5), 1.75), pupil, ALL, family='apodizer', passive=True)
+    one = hp.CartesianGrid(hp.RegularCoords([1, 1], [1, 1], np.zeros(2)))
+    one.weights = 1
+    add('VortexFiberNuller[vortex_charge=2]', hp.VortexFiberNuller,
+        lambda: hp.VortexFiberNuller(pupil, hp.SingleModeFiberInjection(fsmall, hp.make_gaussian_fiber_mode(2.0)), 2),
+        pupil, (S,), output_grid=one, conj_forward=True, family='fibre-nuller')
+    add('PhotonicLanternNuller[mode_field_diameter]', hp.PhotonicLanternNuller,
+        lambda: hp.PhotonicLanternNuller(pupil, fsmall, 1.5, 1), pupil, (S,), output_grid='lantern', conj_forward=True, family='fibre-nuller')
+    cn2 = hp.Cn_squared_from_fried_parameter(0.25, 1.0)
+
+    def infinite(stencil, interp, seed=5):
+        l = hp.InfiniteAtmosphericLayer(pupil, cn2, 8.0, np.array([1.0, 0.5]), 4.0, stencil, interp, seed)
+        l.evolve_until(0.25)
+        return l
+    add('InfiniteAtmosphericLayer[stencil_length=3,no-interpolation]', hp.InfiniteAtmosphericLayer, lambda: infinite(3, False), pupil, ALL, family='layer', passive=True)
+
+    def atmosphere_unpadded():
+        layers = [infinite(2, True, 3), infinite(2, True, 5)]
+        layers[0].height = 2.0
+        a = hp.MultiLayerAtmosphere(layers, True)
+        a.elements = [hp.FresnelPropagator(pupil, e.distance, zero_padding=1) if isinstance(e, hp.FresnelPropagator) else e for e in a.elements]
+        return a
+    add('MultiLayerAtmosphere[scintillation,fresnel(zero_padding=1)]', hp.MultiLayerAtmosphere, atmosphere_unpadded, pupil, ALL, family='system', passive=True)
+    for e in out:
+        if isinstance(e.output_grid, str) and e.output_grid == 'lantern':
+            el = e.factory()
+            e.output_grid = el.fiber.output_grid if hasattr(el, 'fiber') else el.output_grid
+    return out
+
+
+def constructor_option_coverage(entries):
+    """Which optional constructor parameters of the element classes receive a non-default value somewhere in `entries`
+    (observed by wrapping every class's `__init__` while each factory runs once).
+    Returns (covered, missing): dicts class name -> sorted list of parameter names."""
+    import inspect
+    seen = {}
+    saved = {}
+    classes = [c for c in all_element_classes() if '__init__' in c.__dict__]
+
+    def wrap(cls):
+        orig = cls.__dict__['__init__']
+        sig = inspect.signature(orig)
+
+        def init(self, *a, **k):
+            try:
+                b = sig.bind(self, *a, **k)
+            except TypeError:
+                b = None
+            if b is not None:
+                for name, v in b.arguments.items():
+                    p = sig.parameters[name]
+                    if p.default is inspect.Parameter.empty or p.kind in (p.VAR_POSITIONAL, p.VAR_KEYWORD):
+                        continue
+                    try:
+                        eq = (v is p.default) or bool(np.all(v == p.default))
+                    except Exception:     # noqa
+                        eq = False
+                    if not eq:
+                        seen.setdefault(cls.__name__, set()).add(name)
+            return orig(self, *a, **k)
+        saved[cls] = orig
+        cls.__init__ = init
+
+    for c in classes:
+        wrap(c)
+    try:
+        for e in entries:
+            try:
+                e.factory()
+            except Exception:     # noqa
+                pass
+    finally:
+        for c, o in saved.items():
+            c.__init__ = o
+    covered, missing = {}, {}
+    for c in classes:
+        if c.__name__ in ABSTRACT:
+            continue
+        sig = inspect.signature(c.__dict__['__init__'])
+        opts = [nm for nm, p in sig.parameters.items() if p.default is not inspect.Parameter.empty]
+        cov = sorted(nm for nm in opts if nm in seen.get(c.__name__, ()))
+        mis = sorted(nm for nm in opts if nm not in seen.get(c.__name__, ()))
+        if cov:
+            covered[c.__name__] = cov
+        if mis:
+            missing[c.__name__] = mis
+    return covered, missing
